@@ -21,7 +21,7 @@ suite green (288/288):
   refactor produces: an off-by-one at a threshold, a dropped state guard, two
   swapped fields, one DFA cell, ...). Mutants that turned out to be equivalent
   were removed, not kept as "misses".
-* `seeded/<ID>/`, `seeded/<ID>b/` ... `seeded/<ID>j/` - ten rounds of one change per property, each made by an **independent agent** that
+* `seeded/<ID>/`, `seeded/<ID>b/` ... `seeded/<ID>k/` - eleven rounds of one change per property, each made by an **independent agent** that
   was given only the property text and a scratch worktree (nothing from
   `/verif`), asked for a change that needs something specific to manifest (an
   interleaving, a fault at a particular point, a multi-step sequence, an unusual
@@ -30,10 +30,11 @@ suite green (288/288):
   `tools/seedtest.sh` (patch applies to a clean checkout, demo passes/fails as
   claimed, pinned suite still 288/288) before keeping it.
 
-Across the ten rounds 106 of the 200 seeded changes were caught on first contact (11, 12, 10, 10, 13, 10, 11, 10, 11, 8 of 20), the
-other 94 pointed at generator or oracle gaps that were then closed - each table below says which - and eleven of the
-strengthenings exposed genuine defects of the unchanged tree (fixed, §5.1: C18 x2, C08 x2, C04, C15, C11, C05, C20, C10; the C08
-bignum one was pointed out by a seeding agent as a side observation) plus one that is recorded rather than repaired (C06, §5.2).
+Across the eleven rounds 114 of the 220 seeded changes were caught on first contact (11, 12, 10, 10, 13, 10, 11, 10, 11, 8, 8 of 20), the
+other 106 pointed at generator or oracle gaps that were then closed - each table below says which - and thirteen of the
+strengthenings exposed genuine defects of the unchanged tree (fixed, §5.1: C18 x2, C08 x2, C04 x2, C15, C11, C05 x2, C20, C10; three of
+them were first pointed out by seeding agents as side observations on the unmodified tree) plus one that is recorded rather than repaired
+(C06, §5.2).
 
 First contact with the first 20 seeded changes (quick tier, before any strengthening):
 11 caught at once (C01 C03 C05 C07 C08 C09 C12 C15 C16 C17 C19), 8 missed
@@ -198,6 +199,35 @@ the way a drop is carried out):
 | C18j | error args/kwargs read before the payload codec has decoded them: empty on the caller when a codec is active | no payload codec in C18 | a third of the cases run with the cryptobox keyring on both peers; the wire payload is decoded independently, the forwarded ERROR keeps its payload form |
 | C19j | cryptosign authenticator given an explicit `pubkey` together with `channel_binding` signs the bare challenge | `authextra` never carried a public key | explicit (matching) public key, and construction through `create_authenticator` |
 | C20j | `register(..., prefix=...)` records the un-prefixed URI: encrypted invocations fail the trusted-URI check | registrations used full URIs | registration relative to a `prefix=` |
+
+An **eleventh round** (`seeded/<ID>k/`; ten earlier summaries given; the agents were also asked to report, as side observations, anything
+the *unmodified* tree already gets wrong) - first contact, quick tier, replays off: 8 caught at once (C01k C02k C03k C07k C08k C11k C12k C14k),
+one harness error (C19k) and 11 missed:
+
+| prop | seeded change needs | gap in my check | strengthening |
+|---|---|---|---|
+| C04k | `call()` removes its request record only for `SerializationError`: a CALL refused by the transport (`PayloadExceededError`) leaves a ghost request that later accepts a reply | `transport.send()` never failed in C04 | enumerated job: 6 request kinds x 3 ways `send()` fails x reply in success / ERROR form x 2 serializers: the call fails, nothing is written, the reply bearing that id is a protocol violation, the next request works. On the unchanged tree subscribe / register / unsubscribe / unregister had exactly this defect (fixed, §5.1) |
+| C05k | `_fail_connection` cuts the failure reason to 125 instead of 123 octets: only reasons longer than 123 octets show it, and the library's own violation texts are shorter | every failure reason in C05 was one of the library's own short texts | `onConnect()` failing with a 200-octet non-ASCII text, synchronously or through a pending Deferred / Future. Making `onConnect()` results events of the history exposed a genuine defect (a late result re-opens a closed connection; fixed, §5.1) |
+| C06k | a guard `if self._transport:` lets the error path of a *late* failing `onChallenge()` run on: leave after disconnect / a second leave | pending user callbacks were only ever resolved successfully | `onChallenge()` whose pending result fails: while authenticating, after the router's ABORT, after transport loss |
+| C09k | native wrapper feeds chunks above 64 KiB slice-wise and reports the index within the last slice | generated inputs stopped at 32 KiB | enumerated chunks of 140 000 / 300 000 octets with ill-formed sequences around 2^16 / 2^17 / 2^18 |
+| C10k | INTERRUPT skipped when the endpoint's Deferred `.called` is true - which it is for a Deferred paused on an inner Deferred | asynchronous endpoints returned a plain pending Deferred / Future | behaviour "chained" |
+| C13k | asyncio RawSocket client never records the maximum the server announced | under asyncio both library ends announce 16 MiB, so no library pair ever met a lower limit (stated as a limitation in section 6 - and exactly there the change went) | library client / server against a raw peer announcing every nibble, sizes limit-1 .. 3*limit, both frameworks |
+| C15k | merged factory returns the pass-through masker for `not length` - i.e. also for the default `length=None` | the factory was always called with the payload length | factory without hint, with `None`, with hints 127 / 128 regardless of the length processed |
+| C16k | the "limit exceeded" hook fires once per connection and shares its flag with the refused-send path | receive limits were only exercised on connections that had not refused a send | a refused over-limit `sendMessage()` first (a third of the receive and decompression-cap cases) |
+| C17k | opening-handshake timer cancelled at the first octets of the request | the peer's handshake arrived whole or not at all | trickled handshake: a prefix early, the rest at the drawn time or never |
+| C18k | outgoing error URI validated with the *strict* pattern, loose-only URIs replaced by `runtime_error` | four fixed, all-lower-case URIs | URIs with upper case, hyphens, non-ASCII; a class decorated with a hyphenated URI |
+| C19k | (harness error) `sign_challenge` resolves to raw bytes under asyncio | the oracle did report `signature-format`, but the bit-flip enumeration that follows in the same job took the format for granted and crashed, turning the run into exit 2 | the enumeration checks the format itself; generally, a job that ends in a harness error *after* an oracle has recorded a violation now reports the violation |
+| C20k | NaCl boxes cached per *peer* public key: a second key pair facing the same peer gets the first one's shared secret | every layout had one key pair per peer | layout "tenants" |
+
+Side observations of the round-11 agents on the unmodified tree, and what became of them: *late `onConnect()` result re-opens a closed connection*
+(two agents) - genuine, in C05's statement, fixed; *subscribe/register/unsubscribe/unregister keep a ghost request after a failed send* - genuine, in
+C04's statement, fixed; *`onMessage` before `onOpen` with a pending client `onConnect()`*, *a control frame written into an open streaming-API frame*,
+*`beginMessage()` directly followed by `endMessage()`* - the first is not covered by any listed statement, the other two are uses of the streaming API
+outside its documented order and are not generated; *second immediate TCP drop after a violation with failByDrop off* - already discussed below
+(outside the statement); *clean close reported after an invalid peer close* - the open finding of §5.2; *kwargs named `error` / `callee` / `enc_algo`
+collide with constructor parameters* - the reserved-name exclusion stated in §3 (generator is sound-first; not asserted either way); *SCRAM nonce reuse,
+authmethod downgrade, lenient base64* - outside C19's statement (signatures and mutual authentication of one exchange); *a raising component `main`
+reconnects* - the open finding of §5.2.
 
 Round 4 also produced two mutants that do not terminate (C15d on the receive path, C02d under interleaving): a check
 that hangs is useless, so every case / machine step / enumeration block now runs under a CPU-time guard (150 s of CPU of
